@@ -70,3 +70,17 @@ claim("C12",
       "emptied rows become missing, row count unchanged (same regroup theorem as C07 with pandas' row predicate). Correspondence: all target forms "
       "(on_nested, dotted subset, both, conflicting, two layers, base), whole-frame snapshots.",
       NOTE, "Coq proof (regroup-filter theorem) + correspondence check", "DESIGN.md 6/C12")
+claim("C10",
+      "Theorems (Props/C10.v): for EVERY list of rows and EVERY selection of base and nested columns (any order, any multiplicity) the zip of per-column "
+      "iterators calls the function exactly once per row, in row order, with that row's base scalars and that row's own nested values in stored "
+      "order; count_nested = per-row record counts (missing = 0). Correspondence: a recording function on frames with all label kinds and 14 layouts, "
+      "extra positional / keyword arguments, all return shapes incl. dotted outputs, count_nested with by / join; results compared with what the function returned.",
+      NOTE, "Coq proof (zip of iterators = per-row calls) + correspondence check with a recording function", "DESIGN.md 6/C10")
+claim("C17",
+      "Theorems (Props/C17.v): for EVERY field list with distinct names free of ', ' and ': ' and element types that are aliases of themselves, the string "
+      "name parses back to exactly that dtype (CPython split semantics modelled; split(join) lemma for any 2-char separator), so the name determines the "
+      "dtype; a non-alias element type is REFUSED, never mis-parsed; non-nested<...> strings are refused; the side condition on element types is "
+      "discharged by computation for the WHOLE alias catalogue of the installed pyarrow (table regenerated from the live library on every run). "
+      "Correspondence: name rendering and parser vs the Coq model on every alias, parametric types by instantiation, mangled strings, equality / hash / "
+      "Arrow dtype round trip / pickle, declared dtype = storage type after edits (incl. same-kind parametric replacements).",
+      NOTE, "Coq proof (string round trip, catalogue discharged by vm_compute) + correspondence check", "DESIGN.md 6/C17")
